@@ -26,8 +26,8 @@ CLAIMED = {
             NOTE + "Parseval for rfftn/irfftn and 'irfftn discards the non-Hermitian part' (A5) carry the per-mode statement to the physical L2 norm. The verdict does not depend on the documented symbols: a change that alters the symbol but never amplifies does not alarm here (it fails C01's check).", "10.12/C11"),
     "C12": ("The Kolmogorov injections (2D vorticity, 3D velocity), their __call__, the stepper constructors passing mode/scale, GeneralVorticityConvectionStepper's both branches and ForcedStepper.step/step_fourier/__call__ are proved equal to the documented forcing / forcing split.",
             NOTE + "A5 (spectrum of a single cosine/sine) is how the documented physical-space forcing is stated in Fourier space.", "4/C12"),
-    "C13": ("Constructors of the general/normalized/difficulty families are proved to build the same ETDRK object as the generic stepper with the documented converted coefficients; lemmas: conversions are mutual inverses, dt*sigma_generic(L;a) = sigma_generic(1;alpha), specific symbols equal generic symbols with the overview's coefficient lists.",
-            NOTE + "documented convention: the j=0 generic term is D*a_0.", "4/C13"),
+    "C13": ("DIRECT pair checks (contracts/direct_pairs.py): TWO real constructors are executed on the same symbolic parameters (whole call tree under the jax.numpy shim, no callee replaced by its contract except the four ETDRK coefficient constructors, whose contracts are verified in the same run) and the constructed objects are compared: same integrator class, stored propagators and ETDRK coefficient arrays equal at every mode (up to dt_A/dt_B), nonlinear functions equal on an arbitrary Fourier state at every channel and mode -- for Advection/Diffusion/AdvectionDiffusion/Dispersion/HyperDiffusion ~ GeneralLinearStepper, Burgers (orders 1-4, all flag combinations)/KortewegDeVries/KuramotoSivashinskyConservative ~ GeneralConvectionStepper, KuramotoSivashinsky ~ GeneralGradientNormStepper, FisherKPP/AllenCahn ~ GeneralPolynomialStepper, NavierStokesVorticity/KolmogorovFlowVorticity ~ GeneralVorticityConvectionStepper, and General ~ Normalized ~ Difficulty for the linear, convection (orders 1-4), gradient-norm, polynomial and nonlinear families with the conversions of the statement; for every N, L > 0, dt != 0, coefficient value, D in {1,2,3}. Plus the contracts of every conversion function of stepper/generic/_utils.py ('follow the documented formulas') and the lemmas: conversions are mutual inverses, dt*sigma_generic(L;a) = sigma_generic(1;alpha).",
+            NOTE + "documented convention: the j=0 generic term is D*a_0 (reaction rates enter the generic list as r/D). ETDRKp.step_fourier is a function of exactly the compared fields (its own contract is C02's). SwiftHohenberg ~ GeneralPolynomialStepper is not paired (its linear symbol is not a coefficient list of the generic stepper in D > 1). The verdict does not depend on the documented symbols: a change that alters a formula on both sides of a pair consistently does not alarm here (it fails C01/C02/C03).", "10.13/C13"),
     "C14": ("rollout and repeat are proved by the iteration rule for a symbolic trip count n >= 0 (all flag combinations, one- and two-leaf pytrees, real and complex leaves): entry i is ITER(i+1); stack_sub_trajectories returns every window; RepeatedStepper (incl. nested) / ForcedStepper wiring, effective dt and shape checks are proved; build_ic_set uses the documented key chain (unrolled for 1-3 samples: bounded in the sample count).",
             NOTE + "A5 for RepeatedStepper in physical space.", "4/C14"),
     "C08": ("Decided at the level of the contracts of C01-C03 (a code change that breaks a symmetry breaks one of those obligations: symbols, masks, nonlinear terms, constructors) plus lemmas over the documented symbols of every stepper of the table: sigma_doc is invariant under every axis permutation for isotropic parameters, sigma_D restricted to one axis equals sigma_1 (zeroth generic coefficient excluded: documented D*a_0 convention), wavenumber layout of full and halved axes agree below Nyquist.",
@@ -79,7 +79,7 @@ def build(all_ids):
         "engines": [{"name": "symjnp", "path": "symjnp/", "serves_properties": sorted(CLAIMED),
                      "kind_free_text": "forward symbolic executor of the real exponax function objects under a jax.numpy contract shim (index-lambda arrays over z3 terms), callee-by-contract stubs, scan invariants, VCs discharged by z3 with a ring / exponential-polynomial normaliser front end; native replay of counterexamples on real jax"}],
         "checks": checks,
-        "notes": "Every check's cone is closed under callees (a contract used as a stub in a proof is itself verified in the same check). Attribution: C01-C05, C12, C14-C18 state 'equals the documented formula' and are decided by exactly those contracts; C10, C11 are decided by direct checks of their own statement on the real code and C20 by the rejection/shape obligations only; C08, C09, C13 are derived properties decided through the documented-formula contracts (sound: nothing that breaks them passes; not sharp: a change that breaks the documented formula but happens to keep the symmetry / conservation / equivalence still alarms -- DESIGN 10.12). All checks rebuild everything from /repo's working tree (VERIF_REPO overrides for scratch copies). Exit codes: 0 held, 1 violation, 2 undecided, 3 tool failure. quick = all contract obligations and lemmas of the property's cone (unbounded proofs); thorough = quick + a BOUNDED native conformance sweep (5 concrete configurations per contract case on the real jax, float64, against the numerically evaluated spec; reported under coverage.bounded_conformance_sweep, never counted as discharged) + lean re-check of lemmas/Axioms.lean (the exp/cos/sin/sqrt/pi schemes the solver uses). Results of shared (contract, case) items are cached under .cache/<hash of /repo/exponax and of the verifier sources>.",
+        "notes": "Every check's cone is closed under callees (a contract used as a stub in a proof is itself verified in the same check). Attribution: C01-C05, C12, C14-C18 state 'equals the documented formula' and are decided by exactly those contracts; C10, C11, C13 are decided by direct checks of their own statement on the real code (C13: pairs of real constructors compared field by field, plus the conversion-function contracts) and C20 by the rejection/shape obligations only; C08, C09 are derived properties decided through the documented-formula contracts (sound: nothing that breaks them passes; not sharp: a change that breaks the documented formula but happens to keep the symmetry / conservation / equivalence still alarms -- DESIGN 10.12). All checks rebuild everything from /repo's working tree (VERIF_REPO overrides for scratch copies). Exit codes: 0 held, 1 violation, 2 undecided, 3 tool failure. quick = all contract obligations and lemmas of the property's cone (unbounded proofs); thorough = quick + a BOUNDED native conformance sweep (5 concrete configurations per contract case on the real jax, float64, against the numerically evaluated spec; reported under coverage.bounded_conformance_sweep, never counted as discharged) + lean re-check of lemmas/Axioms.lean (the exp/cos/sin/sqrt/pi schemes the solver uses). Results of shared (contract, case) items are cached under .cache/<hash of /repo/exponax and of the verifier sources>.",
         "not_applicable": sorted(na, key=lambda d: d["property_id"]),
     }
 
